@@ -2,8 +2,8 @@ SPECIFICATION Spec
 CONSTANTS
   Keys = {"k1","k2","k3","k4"}
   Vals = {"v1","v2"}
-  MaxCap = 3
-  L = 3
+  Caps = {3}
+  L = 5
 CONSTRAINT Bound
 INVARIANT Emit
 CHECK_DEADLOCK FALSE
